@@ -1,0 +1,10 @@
+//go:build !verif
+
+package server
+
+func verifKick(c *wsConn)               {}
+func verifBegin(c *wsConn)              {}
+func verifYield(c *wsConn)              {}
+func verifEnd(c *wsConn)                {}
+func verifFrame(c *wsConn, data []byte) {}
+func verifHTTPWait(c *wsConn)           {}
